@@ -381,7 +381,7 @@ Proof.
   destruct (rmap (emit_global _ _ _) _) as [og|]; [|discriminate].
   destruct (rmap (emit_mem _) _) as [om|]; [|discriminate].
   destruct (rmap (emit_data mf mg mm) _) as [od|] eqn:D; [|discriminate].
-  destruct (rmap (emit_export _ _) _) as [oe|]; [|discriminate].
+  destruct (rmap (emit_export _ _ _) _) as [oe|]; [|discriminate].
   destruct (rmap (emit_site _ _ _) _) as [os|]; [|discriminate].
   intros H. inversion H; subst; cbn. split; [apply (rmap_length _ _ _ D)|].
   intros k d Hn. unfold nthN in *. destruct (rmap_nth _ _ _ _ _ D Hn) as (y & Hy & Ey).
@@ -402,15 +402,17 @@ Proof.
   destruct (rmap (emit_global _ _ _) _) as [og|]; [|discriminate].
   destruct (rmap (emit_mem _) _) as [om|]; [|discriminate].
   destruct (rmap (emit_data mf mg mm) _) as [od|]; [|discriminate].
-  destruct (rmap (emit_export _ _) _) as [oe|] eqn:E; [|discriminate].
+  destruct (rmap (emit_export _ _ _) _) as [oe|] eqn:E; [|discriminate].
   destruct (rmap (emit_site _ _ _) _) as [os|]; [|discriminate].
   intros H. inversion H; subst; cbn.
   eapply rmap_map; [|exact E]. intros x y. unfold emit_export.
   destruct (N.eqb_spec (ex_kind x) 0) as [E0|E0].
   - destruct (lookup mf (ex_idx x)); [|discriminate]. intros Hy. inversion Hy; subst. cbn. rewrite E0. reflexivity.
-  - destruct (N.eqb_spec (ex_kind x) 2) as [E2|E2].
-    + destruct (lookup mm (ex_idx x)); [|discriminate]. intros Hy. inversion Hy; subst. cbn. rewrite E2. reflexivity.
-    + intros Hy. inversion Hy; subst. reflexivity.
+  - destruct (N.eqb_spec (ex_kind x) 1) as [E1|E1].
+    + destruct (lookup mg (ex_idx x)); [|discriminate]. intros Hy. inversion Hy; subst. cbn. rewrite E1. reflexivity.
+    + destruct (N.eqb_spec (ex_kind x) 2) as [E2|E2].
+      * destruct (lookup mm (ex_idx x)); [|discriminate]. intros Hy. inversion Hy; subst. cbn. rewrite E2. reflexivity.
+      * intros Hy. inversion Hy; subst. reflexivity.
 Qed.
 
 (* every global of the output is a live local item of the index space, with its stored type and the encoding
@@ -432,7 +434,7 @@ Proof.
   destruct (rmap (emit_global _ _ _) _) as [og|] eqn:G; [|discriminate].
   destruct (rmap (emit_mem _) _) as [om|]; [|discriminate].
   destruct (rmap (emit_data mf mg mm) _) as [od|]; [|discriminate].
-  destruct (rmap (emit_export _ _) _) as [oe|]; [|discriminate].
+  destruct (rmap (emit_export _ _ _) _) as [oe|]; [|discriminate].
   destruct (rmap (emit_site _ _ _) _) as [os|]; [|discriminate].
   intros H. inversion H; subst; cbn. exists lg, mf, mg. split; [exists lf; reflexivity|]. split; [reflexivity|].
   split; [apply (rmap_length _ _ _ G)|].
@@ -456,7 +458,7 @@ Proof.
   destruct (rmap (emit_global _ _ _) _) as [og|]; [|discriminate].
   destruct (rmap (emit_mem _) _) as [om|] eqn:M; [|discriminate].
   destruct (rmap (emit_data mf mg mm) _) as [od|]; [|discriminate].
-  destruct (rmap (emit_export _ _) _) as [oe|]; [|discriminate].
+  destruct (rmap (emit_export _ _ _) _) as [oe|]; [|discriminate].
   destruct (rmap (emit_site _ _ _) _) as [os|]; [|discriminate].
   intros H. inversion H; subst; cbn. exists lm, mm. split; [reflexivity|]. split; [apply (rmap_length _ _ _ M)|].
   intros k it Hn. destruct (rmap_nth _ _ _ _ _ M Hn) as (y & Hy & Ey).
@@ -714,7 +716,7 @@ Proof.
   destruct (rmap (emit_global (a_gpay s) mf mg) _) as [og|] eqn:Eg; [|discriminate].
   destruct (rmap (emit_mem (a_mpay s)) _) as [om|] eqn:Em; [|discriminate].
   destruct (rmap (emit_data mf mg mm) _) as [od|] eqn:Ed; [|discriminate].
-  destruct (rmap (emit_export mf mm) _) as [oe|] eqn:Ee; [|discriminate].
+  destruct (rmap (emit_export mf mg mm) _) as [oe|] eqn:Ee; [|discriminate].
   destruct (rmap (emit_site mf mg mm) _) as [os|] eqn:Es; [|discriminate].
   inversion Henc; subst o; clear Henc. cbn [ob_imports ob_funcs ob_globals ob_mems ob_data ob_exports ob_sites ob_dcount].
   (* imports *)
@@ -742,7 +744,10 @@ Proof.
   rewrite (rmap_mono (emit_data mf mg mm) (emit_data mf mg1 mm)) with (r := od); [|
     intros d y; unfold emit_data; destruct d as [b|mem off b]; [auto|];
     destruct (fix_init mf mg off) as [off'|] eqn:Ex; [|discriminate]; rewrite (fix_init_extends _ _ _ Hext _ _ Ex); auto | exact Ed].
-  rewrite Hexp, Ee.
+  rewrite Hexp.
+  rewrite (rmap_mono (emit_export mf mg mm) (emit_export mf mg1 mm)) with (r := oe); [|
+    intros x y; unfold emit_export; destruct (N.eqb (ex_kind x) 0); auto; destruct (N.eqb (ex_kind x) 1); auto;
+    destruct (lookup mg (ex_idx x)) as [q|] eqn:L; [|discriminate]; rewrite (Hext _ q L); auto | exact Ee].
   rewrite (rmap_mono (emit_site mf mg mm) (emit_site mf mg1 mm)) with (r := os); [|
     intros [n [x id]] y; unfold emit_site; destruct x; auto;
     destruct (lookup mg id) as [q|] eqn:L; [|discriminate]; rewrite (Hext id q L); auto | exact Es].
